@@ -64,4 +64,8 @@ MonCallersBalanced == last.act = "CallEnd" => active = 0
 MonAllReturned == last.act # "Stuck"
 \* cancel() reached a body that was running when a prioritized task began (10 s)
 MonCancelReaches == last.act # "CxTimeout"
+\* a body began more than the driver's bound (5 s) after a prioritized task had begun and while it was still in progress
+\* (saturated scenario: the slot is freed late by a body that reacts to cancellation late): its start decision cannot have
+\* been taken in a state without prioritized work
+MonNoLateStart == last.act # "LateStart"
 =============================================================================
